@@ -83,7 +83,16 @@ def lean_stage(V, modules, props_relpath, extra_theorem_files=()):
     if ax_bad:
         V.violation("audit_axioms", {"obligation": "axioms of every property theorem ⊆ {propext, Classical.choice, Quot.sound}",
                                      "theorems": ax_bad}, no_failing_input=True)
-    return dict(ok=ok, theorems=thms, proved=proved, failing=failing, t=t, audit_ok=not (forb or ax_bad), out=out)
+    rechecked = {}
+    if ok and V.tier == "thorough":
+        rechecked = common.leancheck(modules)
+        bad = {m: o for m, (k, o) in rechecked.items() if not k}
+        if bad:
+            V.violation("audit_leanchecker", {"obligation": "leanchecker (independent kernel re-check of the compiled .olean files) accepts every module the property depends on",
+                                               "modules": bad}, no_failing_input=True)
+        V.note("leanchecker re-checked %d modules: %s" % (len(rechecked), ", ".join(sorted(rechecked))))
+    return dict(ok=ok, theorems=thms, proved=proved, failing=failing, t=t, audit_ok=not (forb or ax_bad) and all(k for k, _ in rechecked.values()),
+                out=out, leanchecked=sorted(rechecked))
 
 
 # ------------------------------------------------------------------------------------------
